@@ -518,7 +518,8 @@ theorem receiveUnit_inv (K : Crypto) (hK : CryptoOK K) : ∀ (fuel : Nat) (msg :
       | error e =>
         simp only [wp_pure, wp_bind, wp_getc, wp_ite', wp_modc] at hrec hfin ⊢
         exact ⟨fun _ => hrec _ _ (by exact h1.congr rfl rfl rfl rfl rfl rfl rfl) (by exact he1),
-          fun _ => hfin _ _ (by exact h1)⟩
+          fun _ => hfin { s1 with conv := { s1.conv with theirTag := s.conv.theirTag } } _
+            (by exact h1.congr rfl rfl rfl rfl rfl rfl rfl)⟩
       | ok ctx =>
         simp only [wp_pure, wp_bind, wp_getc, wp_ite', wp_modc] at hrec hfin ⊢
         exact ⟨fun _ => hrec _ _ (by exact h1.congr rfl rfl rfl rfl rfl rfl rfl) (by exact he1),
@@ -667,7 +668,8 @@ theorem startAuthenticate_inv (K : Crypto) (question secret : Bytes) (s : MState
   have hrest2 := fun s1 h1 => hrest s1 (fun ts => smpAbortTlv :: ts) h1
   simp only [wp_bind, wp_pure, id] at hrest1 hrest2
   unfold startAuthenticate
-  simp only [wp_bind, wp_getc, wp_ite', wp_pure, wp_modc]
+  simp only [wp_bind, wp_getc, wp_ite', wp_pure, wp_modc, wp_throw]
+  refine ⟨fun _ => h, fun _ => ?_⟩
   refine ⟨fun _ => ?_, fun _ => ?_⟩
   · first
       | exact hrest1 _ h.smpExpect1
@@ -737,6 +739,7 @@ theorem useExtraSymmetricKey_inv (K : Crypto) (usage : Nat) (usageData : Bytes) 
     wp (useExtraSymmetricKey K usage usageData) (fun _ s' => Inv K s'.conv) NoP s := by
   unfold useExtraSymmetricKey
   simp only [wp_bind, wp_getc, wp_ite', wp_pure, wp_tryCatch]
+  refine ⟨fun _ => h, fun _ => ?_⟩
   refine ⟨fun _ => h, fun _ => ?_⟩
   refine wp_mono _ _ _ _ _ _ (createSDM_inv K _ _ _ s h) ?_ (fun _ hs => hs)
   rintro r s2 ⟨h2, -, -⟩
